@@ -7,13 +7,54 @@ import os, sys, subprocess, shutil, glob, re, concurrent.futures
 ROOT = os.path.dirname(os.path.dirname(os.path.abspath(__file__)))
 SCR = os.environ.get("REGRESS_SCRATCH", "/root/scratch/regh")
 COVER = ["C01", "C04", "C07", "C10", "C12", "C13", "C14", "C17"]
+def cover(base, tree, aff):
+    """smallest set of affected properties (greedy) whose units verify every function whose extracted text changed, plus one property
+    per Kani harness set that targets a changed file"""
+    sys.path.insert(0, os.path.join(ROOT, "tools"))
+    import vx, props
+    ov = vx.parse_overlay(os.path.join(ROOT, "contracts", "all.vs"))
+    changed = {}
+    for p in aff:
+        try:
+            ua = vx.generate(vx.Repo(base), ov, p); ub = vx.generate(vx.Repo(tree), ov, p)
+        except Exception:
+            changed[p] = {"<extraction failed>"}; continue
+        fa = {q: i["sha256"] for q, i in ua.fn_table.items() if i["mode"] == "body"}
+        fb = {q: i["sha256"] for q, i in ub.fn_table.items() if i["mode"] == "body"}
+        changed[p] = {q for q in set(fa) | set(fb) if fa.get(q) != fb.get(q)}
+        # a unit whose text differs only in stubs' source positions or shared items verifies nothing new: not selected for itself
+    todo = set().union(*changed.values()) if changed else set()
+    sel = []
+    while todo:
+        best = max(sorted(changed), key=lambda p: len(changed[p] & todo))
+        if not changed[best] & todo: break
+        sel.append(best); todo -= changed[best]
+    # Kani legs: every harness (of an affected property) that targets a changed file must run in some selected check
+    import kanileg, filecmp
+    chg_files = set()
+    for root, _, files in os.walk(os.path.join(base, "src")):
+        for f in files:
+            a = os.path.join(root, f); b = a.replace(base, tree, 1)
+            if not os.path.exists(b) or not filecmp.cmp(a, b, shallow=False): chg_files.add(os.path.relpath(a, base))
+    h2t = {}
+    for hp, rel in kanileg.harness_files():
+        for h in kanileg.harness_names(hp): h2t[h] = rel
+    hs = {p: {h for h in list(props.KANI[p]["complete"]) + list(props.KANI[p]["bounded"]) if h2t.get(h) in chg_files} for p in aff if props.KANI.get(p)}
+    need = set().union(*hs.values()) if hs else set()
+    for p in sel: need -= hs.get(p, set())
+    while need:
+        best = max(sorted(hs), key=lambda p: len(hs[p] & need))
+        if not hs[best] & need: break
+        sel.append(best); need -= hs[best]
+    return sel or aff[:1]
+
 def one(pid):
     d = os.path.join(SCR, pid.replace("/", "_")); shutil.rmtree(d, ignore_errors=True); os.makedirs(os.path.join(d, "tree")); os.makedirs(os.path.join(d, "base"))
     subprocess.run("git -C /repo archive HEAD | tar -x -C %s/tree; git -C /repo archive HEAD | tar -x -C %s/base" % (d, d), shell=True, check=True)
     r = subprocess.run(["patch", "-p1", "-s", "-i", os.path.join(ROOT, "seeded", "harmless", pid + ".diff")], cwd=os.path.join(d, "tree"))
     if r.returncode != 0: return pid, "PATCH-FAILED", []
     aff = subprocess.run([sys.executable, os.path.join(ROOT, "tools", "affected.py"), os.path.join(d, "base"), os.path.join(d, "tree")], stdout=subprocess.PIPE, stderr=subprocess.DEVNULL, text=True).stdout.strip().split("\n")[-1].split()
-    sel = [p for p in COVER if p in aff] or aff[:1]
+    sel = cover(os.path.join(d, "base"), os.path.join(d, "tree"), aff)
     res = []
     for prop in sel:
         env = dict(os.environ, VERIF_REPO=os.path.join(d, "tree"), VERIF_WORK=os.path.join(d, "work"))
